@@ -31,6 +31,12 @@ def assert_near(
     if numpy.issubdtype(value.dtype, numpy.datetime64):
         target_value = numpy.array(target_value, dtype=value.dtype)
         assert_datetime_equals(value, target_value, message)
+    if value.dtype == object or numpy.issubdtype(value.dtype, numpy.str_):
+        target_value = numpy.array(target_value).astype(str)
+        assert (
+            value.astype(str) == target_value
+        ).all(), f"{message}{value} differs from {target_value}."
+        return None
     if isinstance(target_value, str):
         target_value = commons.eval_expression(target_value)
 
